@@ -16,7 +16,7 @@
 EXTENDS Integers, Sequences, FiniteSets, TLC, Json
 
 Bytes == {"nil", "empty", "short", "exact", "long", "huge"}
-Ints  == {"min", "neg", "lo-1", "lo", "hi", "hi+1", "huge"}
+Ints  == {"min", "neg", "lo-1", "lo", "hi", "hi+1", "wrap", "huge"}        \* wrap: 256 + a valid value (out of range, congruent to a valid byte)
 Algos == {"unknown", "bls", "p256", "k1", "undefined", "negative"}
 Hashers == {"nil", "small", "ok", "big"}
 Lists == {"nil", "empty", "one", "two", "many"}
@@ -78,7 +78,7 @@ Calls ==
 \* DKG message handlers: arbitrary tag, payload size class and origin at every phase
 Tags   == {0, 1, 2, 3, 4, 255}
 Sizes  == {"none", "1", "31", "32", "33", "vec-1", "vec", "vec+1", "huge"}
-Origs  == {-1, 0, 1, 2, 3}
+Origs  == {-1, 0, 1, 2, 3, 256, 258, -255}      \* incl. out-of-range values congruent to an index modulo 256
 Phases == {"new", "started", "timeout1", "timeout2", "ended"}
 DKGMessages == {[fn |-> "DKGMessage", a |-> p, b |-> ph, c |-> <<ch, tg, sz, o>>, expect |-> "any-or-reject"] :
                   p \in {"fvss", "qual", "jf"}, ph \in Phases, ch \in {"b", "p"}, tg \in Tags, sz \in Sizes, o \in Origs}
